@@ -7,6 +7,9 @@ ids = [json.loads(l)['id'] for l in open(os.path.join(ROOT, 'properties.jsonl'))
 
 # id -> (technique, level text, level note, design ref)
 CHECKS = {
+ 'C04': ("runtime monitor of the real insts.Disassembler under -race: independent encoder (vlib/gcnasm, written from the manuals' field tables) round trip over every decode-table row x operand / modifier patterns; structured + random totality fuzzing with panic classification in child processes; suffix independence, second instance, call-order and concurrency metamorphic checks; sequential decode + re-encoding of every kernel of the 77 shipped .hsaco files",
+         "Held (modulo the listed open findings, each keyed per class with a behaviour fingerprint) on ~170 000 round trips (1113 table rows x 2 decoder modes), ~580 000 fuzz inputs (2.8 M thorough) and 40 775 shipped instructions per run: decode(encode(d)) = d field by field, no memory fault, no mis-sized instruction, decode(b) independent of trailing bytes, instance, call order and concurrent use, shipped kernels consumed exactly. Exploration, not proof.",
+         "Trusts the gcnasm bit layouts and mnemonic width rules (cross-checked by 21 manual / LLVM MC encodings and by re-encoding the whole shipped corpus byte-exactly), Go's panic classification, debug/elf.", "DESIGN.md §3 C04"),
  'C07': ("model-based monitor: both real register stores (emu.Wavefront; the timing CU's SimpleRegisterFiles behind wavefront.Wavefront + CURegFileAccessor, 2-6 co-resident wavefronts placed by the real WfDispatcher) driven with the same seeded operand read/write histories, operands harvested from the real decoder, compared with a flat array-of-cells model after every operation and by full sweeps",
          "Held on N operand read/write histories (quick 200x400 + 714 canonical cases + 486 probes; thorough 5000x2000) over s0-s101, v0-v255 x 64 lanes, VCC/EXEC pairs and halves, SCC, M0, widths 1-16 dwords, wavefront placements incl. adjacent/last-slot: every read equals the flat model, every write changes exactly the named cells in both stores, emulation and timing agree. One open known finding (VCC_LO read with RegCount 0 in emulation). Exploration, not proof.",
          "Trusts insts.Disassembler for operand construction (verified per harvest), the typed getters / raw SimpleRegisterFile.Read as independent read-back path, the harness' re-implementation of the dispatcher's placement arithmetic.", "DESIGN.md §3 C07"),
